@@ -257,20 +257,8 @@ Definition wf_bms_lines (lay : slayout) (lines : list text) : bool :=
                               | Some x, Some y => x =? y | _, _ => false end)
                (filter (fun o => match lane_of lay (o_chan o) with Some _ => true | None => false end) objs).
 
-(* the extra guards under which the read theorem holds of the present code (each excluded class is a finding) *)
-(* (a) lines in time order: in every lane the objects, taken in the order the text lists them (line by line,
-   left to right), are in non-decreasing time order *)
-Fixpoint nondecreasing_objs (l : list sobj) : bool :=
-  match l with
-  | a :: ((b :: _) as r) => negb (obj_lt b a) && nondecreasing_objs r
-  | _ => true
-  end.
-Definition lines_in_order (lay : slayout) (lines : list text) : bool :=
-  let objs := flat_map objs_of_line lines in
-  forallb (fun c => nondecreasing_objs
-                      (filter (fun o => match lane_of lay (o_chan o) with Some c' => c' =? c | None => false end) objs))
-          (lanes lay).
-(* (b) every tempo object is on the 1/96 grid relative to the previous tempo object *)
+(* the extra guard under which the read theorem holds of the present code (the excluded class is a finding):
+   every tempo object is on the 1/96 grid relative to the previous tempo object *)
 Fixpoint pairwise_grid (tbl : list Q) (prev : bcs) (l : list bcs) : bool :=
   match l with
   | [] => true
